@@ -9,7 +9,7 @@
    finding nul_in_source). *)
 From Coq Require Import List NArith ZArith Bool Permutation.
 Import ListNotations.
-From Cffi Require Import C35.PyStr C35.Model C24.Utf8 C32.PyStr C32.Model C32.Spec C32.Gen C32.Proofs C32.Proofs2.
+From Cffi Require Import C35.PyStr C35.Model C24.Utf8 C32.PyStr C32.Model C32.Spec C32.Gen C32.Proofs C32.Proofs2 C32.Proofs3.
 Open Scope N_scope.
 
 (* the regenerated flatten computes the specified encoding, for every value and fuel *)
@@ -74,6 +74,24 @@ Proof.
 Qed.
 Print Assumptions C32_key_bytes_injective.
 
+(* from the inputs the property names to the hashed list: ffi._cdefsources is computed from the FFI's cdef() strings
+   and include()d FFIs by FFI._cdef / FFI.include (regenerated: Gen.v `cdefsources`, markers `include_first`,
+   `include_last`).  It determines the whole include structure (bracket matching) as long as no cdef string is itself
+   a marker — ffi.cdef() refuses "[" and "]" — and the two markers differ. *)
+Theorem C32_cdefsources_injective : forall t1 t2, wf_tree t1 = true -> wf_tree t2 = true ->
+  cdefsources t1 = cdefsources t2 -> t1 = t2.
+Proof. exact cdefsources_injective. Qed.
+Print Assumptions C32_cdefsources_injective.
+
+(* the key is an injective encoding of (version, verifier version, C source, keyword arguments, FFI with its cdef
+   strings and include structure) *)
+Theorem C32_user_key_injective : forall fuel fuel' u v k, wf_user u -> wf_user v ->
+  user_key fuel u = Ok k -> user_key fuel' v = Ok k ->
+  u_version u = u_version v /\ u_vvm u = u_vvm v /\ u_preamble u = u_preamble v /\
+  veq (PDict (u_kwds u)) (PDict (u_kwds v)) /\ u_ffi u = u_ffi v.
+Proof. exact user_key_injective. Qed.
+Print Assumptions C32_user_key_injective.
+
 (* the full statement without the NUL hypothesis is false of the model *)
 Theorem C32_key_refuted_with_nul :
   exists i j, key_of 2 i = key_of 2 j /\ (exists k, key_of 2 i = Ok k) /\ ~ equiv_inputs i j /\
@@ -129,6 +147,13 @@ Example C32_example_key :
               i_kwds := []; i_sources := [[97]; [98]] |}
   = Ok [51;46;49;50;0;48;46;56;46;54;0;105;110;116;0;48;100;0;97;0;98].
 Proof. vm_compute. reflexivity. Qed.
+
+(* A.include(B1[a]); A.cdef(b); A.include(B2[c])  vs  A.include(B[a, include(C[b]), c]) *)
+Example C32_example_include_structures :
+  cdefsources [IInclude [ICdef [97]]; ICdef [98]; IInclude [ICdef [99]]] = [[91]; [97]; [93]; [98]; [91]; [99]; [93]] /\
+  cdefsources [IInclude [ICdef [97]; IInclude [ICdef [98]]; ICdef [99]]] = [[91]; [97]; [91]; [98]; [93]; [99]; [93]] /\
+  wf_tree [IInclude [ICdef [97]; IInclude [ICdef [98]]; ICdef [99]]] = true.
+Proof. vm_compute. repeat split; reflexivity. Qed.
 
 Example C32_example_unsupported : flatten 3 (PList [PInt 1; POther 0]) = Err TypeError.
 Proof. vm_compute. reflexivity. Qed.
